@@ -51,6 +51,12 @@ def getattr_lib(M, interp, obj, name, node):
             return 2
         if name == 'size':
             return obj.shape[0] * obj.shape[1]
+        if name == 'T':
+            return M.transpose2(obj)
+        if (Vec2, name) in M.methods:
+            return ModelMethod(obj, name)
+        if name == 'dtype':
+            return DType(obj.dtype, None)
         raise AnalysisError(f'2-D array attribute {name} not modelled', node)
     if isinstance(obj, Sc):
         if name == 'astype':
@@ -443,6 +449,8 @@ def register(M):
             elif isinstance(x, Masked):
                 els.append(El(X.ANY, False))
             elif isinstance(x, (list, tuple, Vec)):
+                if all(isinstance(y, (list, tuple, Vec)) for y in seq) and 'numpy.stack' in E:
+                    return E['numpy.stack'](interp, [list(seq)], {}, node)     # np.array of rows: a plain 2-D ndarray
                 raise AnalysisError('nested sequences (2-D input) not modelled', node)
             else:
                 o = as_operand(x)
@@ -1222,6 +1230,9 @@ def register(M):
                         outs.append(El(o[1], False))
                 return Vec.fresh(outs, kind=v.kind, dtype=v.dtype)
             vv = as_vec(interp, v, node)
+            if vv is None and isinstance(v, (int, Fr, float, Sc)) and not isinstance(v, bool):
+                o = as_operand(v)      # a 0-d value reduces to itself
+                vv = Vec.fresh([El(o[1], False)], kind='nd', dtype=v.dtype if isinstance(v, Sc) else ('i8' if isinstance(v, int) else 'f8'))
             if vv is None:
                 raise AnalysisError(f'reduction over {type(v).__name__} not modelled', node)
             if vv.kind == 'series':
